@@ -293,6 +293,8 @@ def mutate_target(rng, y, kind, tkind):
             y[...] = 0.0
         elif kind == "shift":
             y += 50.0
+        elif kind == "zero_task" and y.ndim == 2 and y.shape[1] >= 2:
+            y[:, int(rng.integers(0, y.shape[1]))] = 0.0       # one silent output channel
     return y
 
 
